@@ -24,7 +24,7 @@ shutil.rmtree(base, ignore_errors=True); os.makedirs(base)
 # the campaign works on /repo's HEAD (git archive), not on its working tree, so that it can run while another tool has a patch applied there
 head = f'{base}/head'; os.makedirs(head)
 subprocess.run('git -C /repo archive HEAD | tar -x -C ' + head, shell=True, check=True)
-gen = ['/verif/bin/verifsa', 'neutral-sites', '-repo', head] if a.typed else ['/verif/bin/mutate'] + (['-neutral'] if a.neutral else []) + [head]
+gen = ['/verif/bin/verifsa', 'neutral-sites'] + ([] if a.neutral else ['-mutants']) + ['-repo', head] if a.typed else ['/verif/bin/mutate'] + (['-neutral'] if a.neutral else []) + [head]
 muts = [json.loads(l) for l in subprocess.run(gen, capture_output=True, text=True, env=dict(os.environ, GOFLAGS='-mod=mod', GOPROXY='off', GOSUMDB='off', GOTOOLCHAIN='local')).stdout.splitlines()]
 sel = []; g = 0
 for m in muts:
